@@ -206,23 +206,26 @@ func downloadSegmentTimeLineWithTime(ctx context.Context, stl *m.SegmentTimeline
 
 func downloadSegmentNumber(ctx context.Context, stpl *m.SegmentTemplateType, totDurMS uint32, mediaPattern, outDir, baseURL string,
 	cnt counts, force bool) counts {
+	if stpl == nil || stpl.Duration == nil || *stpl.Duration == 0 {
+		slog.Warn("segment duration not set. Cannot derive the segment numbers", "media", mediaPattern)
+		cnt.nrErrors++
+		return cnt
+	}
 	startNr := uint32(1)
 	if stpl.StartNumber != nil {
 		startNr = *stpl.StartNumber
 	}
-	if stpl == nil {
-		slog.Warn("segment duration not set")
-		return cnt
-	}
-	dur := *stpl.Duration
-	timeScale := uint32(1)
+	dur := uint64(*stpl.Duration)
+	timeScale := uint64(1)
 	if stpl.Timescale != nil {
-		timeScale = *stpl.Timescale
+		timeScale = uint64(*stpl.Timescale)
 	}
 	var err error
-	nrSegments := totDurMS * timeScale / (dur * 1000)
-	for i := startNr; i <= nrSegments+1; i++ { // Try one more to avoid rounding problems
-		mPart := replaceNumber(mediaPattern, i)
+	// Number of segments is the period duration divided by the segment duration, rounded up (64-bit arithmetic)
+	nrSegments := (uint64(totDurMS)*timeScale + dur*1000 - 1) / (dur * 1000)
+	for i := uint64(0); i <= nrSegments; i++ { // Try one more to avoid rounding problems
+		nr := startNr + uint32(i)
+		mPart := replaceNumber(mediaPattern, nr)
 		u := baseURL + mPart
 		p := path.Join(outDir, mPart)
 		cnt, err = downloadAndCount(ctx, u, p, cnt, force)
